@@ -468,6 +468,15 @@ public:
 		return *this;
 	}
 
+	// the implicit assignment copied the other variable's mutex byte for byte (possibly locked) and read its value unlocked
+	Atomic& operator=(const Atomic& x)
+	{
+		T v = ~x;
+		Lock _(_mutex);
+		_x = v;
+		return *this;
+	}
+
 	/**
 	Returns a reference to the internal value (not synchronized)
 	*/
